@@ -268,9 +268,16 @@ def do_step(top, meta, name, k):
         return top
     if name == 'NestInEnsemble':
         y = top if isinstance(top, M.RemoteException) else M.RemoteException(top)
-        others = meta['others']
-        z = {'y': [others[0], others[1]], 'n': 2}
-        z['y'][k - 1] = y
+        # the results an ensemble has collected when it raises: every member reported (fail_fast=False), or only some of them
+        # (fail_fast=True: raised at the first failure; `n` = members that have reported, None = not yet) - the failed member
+        # sits at its OWN index, whatever n is
+        sd = meta['seed']
+        shapes = ([('plain', sd), None], [None, None], [None, None, None], [('plain', sd), None, ('plain', sd + 1)],
+                  [None, None, ('plain', sd)])
+        ylist = list(shapes[(sd + len(meta['pos'])) % len(shapes)])
+        ylist[k - 1] = y
+        z = {'y': ylist, 'n': sum(1 for v in ylist if v is not None)}
+        meta['last_ens'] = {'n': z['n'], 'len': len(ylist), 'rest': [repr(v) for j, v in enumerate(ylist) if j != k - 1]}
         meta['pos'].append(k)
         return raise_at(meta['nraise_next'], lambda: M.EnsembleError(z))
     raise ValueError(name)
@@ -493,9 +500,9 @@ def replay(item, beh, child=None):
                            'kind': 'exc'}
         bad = list(meta.get('checks') or [])
         if name == 'NestInEnsemble':
-            others = [repr(v) for j, v in enumerate(meta['others']) if j != k - 1]
-            ens_ident.append({'cls': 'mpservice.multiprocessing.remote_exception.EnsembleError', 'n': 2, 'len': 2,
-                              'rest': others})
+            le = meta['last_ens']
+            ens_ident.append({'cls': 'mpservice.multiprocessing.remote_exception.EnsembleError', 'n': le['n'], 'len': le['len'],
+                              'rest': le['rest']})
         bad += compare(spec_lv, pr, ident0, ens_ident)
         for i, r in enumerate(pr):
             txt = r['wtxt'] if r['wrapped'] else r['rtxt']
